@@ -18,14 +18,24 @@ def Grammar(description, include_source=False):
 
     # Generate and compile the souce code.
     builder = translator.generate_source_code(docstring, parsed)
-    module = builder.compile(
-        module_name=name,
-        docstring=docstring,
-        source_var='_source_code' if include_source else None,
-    )
+    module = _compile_module(name, docstring, builder.source_code(), include_source)
 
     if parsed.name:
         _install_module(name, module)
+
+    return module
+
+
+def _compile_module(name, docstring, source_code, include_source):
+    # Compile the module like any interpreter compiles its saved source code.
+    # (No optimization level that strips the assert statements and docstrings
+    # of Python sections, and no compiler flags from the caller.)
+    code_object = compile(source_code, f'<{name}>', 'exec', dont_inherit=True)
+    module = types.ModuleType(name, doc=docstring)
+    exec(code_object, module.__dict__)
+
+    if include_source:
+        module._source_code = source_code
 
     return module
 
